@@ -13,38 +13,71 @@ THEOREMS = [
     "TornadoModel.C06.cache_sound_step",
     "TornadoModel.C06.cache_sound_run",
     "TornadoModel.C06.refines_multimap",
+    "TornadoModel.C06.get_is_joined_list",
+    "TornadoModel.C06.field_line_is_add",
+    "TornadoModel.C06.obs_fold_extends_last_value",
+    "TornadoModel.C06.field_line_is_add_chars",
+    "TornadoModel.C06.malformed_line_rejected",
+    "TornadoModel.C06.bad_continuation_rejected",
     "TornadoModel.C06.present_deletable",
+    "TornadoModel.C06.reported_deletable",
+    "TornadoModel.C06.present_deletable_run",
+    "TornadoModel.C06.present_deletable_prefix_refuted",
     "TornadoModel.C06.deleted_absent",
     "TornadoModel.C06.copy_equal",
+    "TornadoModel.C06.copy_behaves_as_multimap",
     "TornadoModel.C06.parse_str_roundtrip",
 ]
 TRUSTED = [
     "str.capitalize/split/join/strip/find and dict insertion order as modelled in C06/Model.lean (ASCII names)",
+    "collections.abc.MutableMapping mixin methods (pop/popitem/clear/update/setdefault/get(default)/items) as expanded by hand into the primitive operations they perform (c06.py `_expand`); tie only, no theorem mentions them",
     "CPython `re` for _ABNF.field_name/field_value/_FORBIDDEN_HEADER_CHARS_RE and r'\\r?\\n$' (modelled by hand)",
 ]
 ASSUMPTIONS = [
     "header names are ASCII strings (str.capitalize on non-ASCII text is not modelled; add() rejects such names anyway)",
-    "aliasing between a map and its copy cannot be expressed in the (immutable) model; copy independence is decided by the correspondence stream only",
+    "aliasing between a map and its copy cannot be expressed in the (immutable) model: that the two Python objects share no mutable state is decided by the correspondence stream (copy cases: outputs of separate histories on both objects); the theorems cover the behaviour of each object",
+    "which field line a continuation line extends directly after a copy is not fixed by the property (oracle stops judging the copy there; the model pins the actual behaviour: the copy's last pair)",
 ]
 RULE = ("op sequences over a small name/value alphabet with case variants, valid/invalid values, obs-fold lines; "
         "names are legal tokens incl. letters directly after digits/_/./!/~/' etc. (P3P, X_Forwarded_For): every case "
         "pattern of every short token over a tchar alphabet is probed against every other spelling of the same name "
         "(add/set/del/get/get_list/in/parse_line); "
+        "copy cases: a history, a copy (copy()/copy.copy/HTTPHeaders(h)/deepcopy/pickle), a history on one object, then one on the other; "
+        "mixin cases: MutableMapping mixin calls (pop, pop/get with default, setdefault, items, update, popitem, clear) interleaved with primitive ops, expanded into primitives for model and multimap; "
+        "parse cases in both validation modes (bytes / _chars_are_bytes=False with non-latin1 and control characters); "
         "non-trivial = at least one name holds >=2 values or a cached read precedes a mutation; distinct by canonical JSON")
 EXHAUSTIVE = {"quick": False, "thorough": False}
 CLAUSE_CAVEATS = [
-    "present_deletable is immediate from the model's definition of delete after the fix (it does not need reachability); the substance is model fidelity, established by the tie and the revert-fix mutant",
+    "copies are independent: the theorems (copy_equal, copy_behaves_as_multimap) describe each object's behaviour; that the two Python objects share no mutable state cannot be stated in the immutable model and rests on the copy cases of the correspondence stream",
+    "line parsing: Spec.parseLine shares its lexical helpers (stripEol, splitColon, stripWs, appendToLast) with the model, so for the line grammar refines_multimap relates near-identical definitions; what they do is proved separately against a grammar stated from the outside (field_line_is_add, obs_fold_extends_last_value, malformed_line_rejected, bad_continuation_rejected; terminators '', LF, CRLF); NOT covered by a theorem: lines containing a bare CR or ending in LF LF / CR LF LF (reference reader _ref_parse and correspondence only); isToken/isFieldValue are hand-transcriptions of the _ABNF regexes (TRUSTED)",
+    "the _chars_are_bytes=False mode (multipart part headers) is outside Op/run: field_line_is_add_chars proves the accepting field-line path on reachable states; its continuation lines and rejections are covered by correspondence (parseU) and the reference reader only",
 ]
 CLAUSES = {
+    "line parsing including continuation lines":
+        "refines_multimap (parseLine op) + field_line_is_add + obs_fold_extends_last_value (grammar stated from the outside, "
+        "incl. cache invalidation on the fold path) + malformed_line_rejected + bad_continuation_rejected + field_line_is_add_chars",
     "behaves like an insertion-ordered multimap keyed by case-insensitive name":
         "refines_multimap + normalize_eq_iff_lower_eq + normalize_case_variants (all names, not only letters-and-hyphens; "
         "closed form of the stored key: normalize_eq_headerCase)",
-    "reading a name returns its values joined by commas": "refines_multimap (Spec.get) + cache_sound_run",
-    "any name reported present can be deleted": "present_deletable",
-    "copies are independent": "copy_equal (same entries) + tie only (aliasing between the two objects)",
+    "reading a name returns its values joined by commas":
+        "get_is_joined_list (model alone: h[n] = ','.join(get_list(n)), cached or not, every reachable state) + refines_multimap (Spec.get) + cache_sound_run",
+    "any name reported present can be deleted":
+        "reported_deletable (reachable states; presence reported by ANY read API: in / iteration / get_all / get_list / "
+        "h[n] through the cache; every spelling; afterwards no API reports it) + present_deletable_run (same on run outputs) "
+        "+ present_deletable / deleted_absent (the membership-only special case, immediate from the fixed __delitem__) "
+        "+ present_deletable_prefix_refuted (the statement is false for the pre-fix __delitem__); the oracle also applies "
+        "the clause directly to HTTPHeaders at probed points of every history (_present_probes)",
+    "copies are independent": "copy_equal (same entries) + copy_behaves_as_multimap (every further history on the copy / "
+        "on the original gives the outputs of the copied / the original multimap) + tie only for the aliasing fact itself "
+        "(no shared mutable list between the two Python objects): copy cases run a history on one object and THEN one on "
+        "the other, via copy()/copy.copy/HTTPHeaders(h)/deepcopy/pickle, outputs of both compared with model and multimap",
     "serializing and parsing back yields an equal map": "parse_str_roundtrip",
 }
 PARALLEL = True
+# pure in-memory dict/list operations: nothing here can hang.  The default 20 s wall-clock watchdog did fire once on a
+# starved machine (load 56 on 16 cores) in the middle of a forked worker's first `import tornado` and left asyncio
+# half-imported ("NameError: name 'base_events' is not defined" on the retry) — a false alarm of the harness.
+CASE_TIMEOUT = 180
 
 NAMES = ["a", "A", "x-y", "X-Y", "X-y", "Set-Cookie", "set-cookie", "b", "content-LENGTH", "-", "a-", "-a", "a--b", "Z9-z9"]
 VALUES = ["1", "2", "v w", "a\tb", "", "\xe9\xff", "x,y", "a:b", "#", "  padded  "]
@@ -144,6 +177,23 @@ def _enum_cases(names, values, maxlen):
             yield {"kind": "ops", "ops": [list(o) for o in seq] + tail, "enum": True}
 
 
+def _enum_copy_cases(names, maxlen, vias):
+    """every short history x every single mutation of one object x every way of copying, then reads on the other"""
+    muts = [["add", n, "1"] for n in names] + [["set", n, "2"] for n in names] + [["del", n] for n in names] \
+        + [["get", n] for n in names] + [["parseLine", " c"]]
+    afters = [["add", names[0], "7"], ["set", names[-1], "8"], ["del", names[0]], ["parseLine", " k"],
+              ["parseLine", names[-1] + ": 9\r\n"]]
+    reads = [["get", names[0]], ["getList", names[-1]], ["contains", names[0]], ["getAll"], ["keys"], ["len"], ["str"]]
+    for L in range(0, maxlen + 1):
+        for seq in itertools.product(muts, repeat=L):
+            for a in afters:
+                for mutate in ("copy", "orig"):
+                    for via in vias:
+                        yield {"kind": "copy", "ops": [list(o) for o in seq], "after": [list(a), ["get", names[0]], ["getAll"]],
+                               "after2": [list(r) for r in reads] + [["add", names[0], "5"], ["get", names[0]]],
+                               "mutate": mutate, "via": via, "enum": True}
+
+
 def _case_patterns(base):
     """every upper/lower pattern of the letters of `base` (a lower-case token)"""
     pos = [i for i, c in enumerate(base) if c.isalpha()]
@@ -209,6 +259,14 @@ def gen_cases(rng, tier):
         yield from _enum_cases(["a", "A"], ["1"], 5)
         yield from _enum_cases(["P3P", "p3p", "P3p"], ["1"], 3)
         yield from _enum_cases(["X_Y", "x_y"], ["1"], 4)
+    if tier == "quick":
+        yield from _enum_copy_cases(["a", "A"], 2, ["copy", "deepcopy", "pickle"])
+    elif tier == "thorough":
+        yield from _enum_copy_cases(["a", "A", "b"], 2, ["copy", "copy.copy", "ctor", "deepcopy", "pickle"])
+        yield from _enum_copy_cases(["a", "A"], 3, ["copy", "deepcopy"])
+    yield from _enum_mixin_cases(["a", "A"], 2 if tier != "thorough" else 3)
+    for _ in range({"quick": 600, "thorough": 8000, "search": 600}[tier]):
+        yield {"kind": "mixin", "ops": _rand_mixin_ops(rng, rng.randint(1, 20), _pick_names(rng))}
     # every spelling of every short token against every other spelling of the same token (all tiers: the search
     # stage needs it too), and the same for the listed real-world style names
     yield from _sweep_cases(_family_pairs())
@@ -232,10 +290,19 @@ def gen_cases(rng, tier):
             yield {"kind": "ops", "ops": _rand_ops(rng, rng.randint(1, 30), names)}
         elif k < 0.8:
             yield {"kind": "copy", "ops": _rand_ops(rng, rng.randint(0, 12), names),
-                   "after": _rand_ops(rng, rng.randint(1, 6), names), "mutate": rng.choice(["copy", "orig"])}
+                   "after": _rand_ops(rng, rng.randint(1, 6), names), "mutate": rng.choice(["copy", "orig"]),
+                   "after2": _rand_ops(rng, rng.randint(0, 6), names),
+                   "via": rng.choice(["copy", "copy", "copy.copy", "ctor", "deepcopy", "pickle"])}
         else:
             text = "".join(_rand_line(rng, names) + rng.choice(["", "\n", "\r\n"]) for _ in range(rng.randint(0, 6)))
-            yield {"kind": "parse", "text": text}
+            if rng.random() < 0.35:
+                # the multipart/form-data mode: any non-control character is a legal value character
+                if rng.random() < 0.6:
+                    text += "%s: %s%s" % (rng.choice(names), rng.choice(["Ā", "中 x", "a\x7fb", "x\x01", "é", "\x80\xff", "f\x0bg", "t\tu"]),
+                                          rng.choice(["", "\r\n", "\n", "\r\n \u4e2d\r\n", "\n\tĀ \n", "\n \x7f"]))
+                yield {"kind": "parse", "text": text, "bytes": False}
+            else:
+                yield {"kind": "parse", "text": text}
 
 
 def _exc(e):
@@ -277,22 +344,286 @@ def _apply(h, op):
         return _exc(e)
 
 
+def _replay(ops):
+    from tornado.httputil import HTTPHeaders
+    h = HTTPHeaders()
+    for op in ops:
+        _apply(h, op)
+    return h
+
+
+def _reports(h, name, with_getitem):
+    """which public read APIs report `name` as present (h[name] last: it fills the combined-value cache)"""
+    r = []
+    try:
+        if name in h:
+            r.append("in")
+        if name in list(h):
+            r.append("iter")
+        if any(k == name for k, _ in h.get_all()):
+            r.append("get_all")
+        if h.get_list(name):
+            r.append("get_list")
+        if with_getitem:
+            try:
+                h[name]
+                r.append("getitem")
+            except KeyError:
+                pass
+    except Exception as e:
+        r.append(_exc(e))
+    return r
+
+
+def _cuts(ops):
+    """history prefixes at which presence is probed: every prefix of a short history, else the end of the history,
+    the points just before each trailing read, and evenly spaced ones"""
+    n = len(ops)
+    if n <= 10:
+        return list(range(1, n + 1))
+    cuts = {n}
+    for i in range(n - 1, 0, -1):          # strip trailing reads: the state before a `get` has no cache entry yet
+        if ops[i][0] in ("add", "set", "del", "parseLine"):
+            cuts.add(i + 1)
+            break
+    cuts.update(range(n // 6, n, max(1, n // 6)))
+    return sorted(c for c in cuts if c >= 1)
+
+
+def _present_probes(ops):
+    """The clause "any name reported present can be deleted", applied DIRECTLY to the implementation (no model, no
+    multimap): at several points of the history, for every name in play, replay the history on a fresh object,
+    ask every read API whether the name is present, delete it (under the same and under another spelling), and ask
+    again.  Returns only the offending probes (normally [])."""
+    bad = []
+    for cut in _cuts(ops):
+        prefix = ops[:cut]
+        cands = {}
+        for o in prefix:
+            if len(o) > 1 and o[0] != "parseLine" and isinstance(o[1], str):
+                cands.setdefault(o[1].lower(), o[1])
+        try:
+            for k in list(_replay(prefix)):
+                cands.setdefault("=" + k, k)         # the displayed spelling as well
+        except Exception:
+            pass
+        for name in list(cands.values())[:8]:
+            for with_getitem in (False, True):
+                for spelling in (name, name.swapcase()):
+                    if with_getitem and spelling != name:
+                        continue
+                    h = _replay(prefix)
+                    rep = _reports(h, name, with_getitem)
+                    if not rep:
+                        continue
+                    d = _apply(h, ["del", spelling])
+                    after = _reports(h, name, True) if d == "U" else []
+                    if d != "U" or after:
+                        bad.append([cut, name, rep, spelling, d, after])
+            if len(bad) >= 3:
+                return bad
+    return bad
+
+
+# ---- MutableMapping mixin methods (pop / setdefault / items / update / popitem / clear / get with default) --------
+# They are stdlib code running on top of the modelled primitives.  A mixin op is executed for real on HTTPHeaders and
+# EXPANDED into the primitive ops `collections.abc.MutableMapping` performs, which model and multimap then run; the
+# primitive outputs are folded back into the mixin's result.  Where the expansion depends on the state (setdefault:
+# is the key there?  items/popitem/clear: which keys?) it uses what the implementation reported through `in` /
+# iteration just before the call — and that report is itself part of the expansion (`contains` / `keys`), so a wrong
+# report shows up as a mismatch.
+MIXINS = ("pop", "popd", "getd", "setdefault", "items", "update", "popitem", "clear")
+
+
+def _apply_mixin(h, op):
+    """-> (output, aux)"""
+    k = op[0]
+    aux = None
+    try:
+        if k in ("setdefault", "pop", "popd", "getd"):
+            aux = op[1] in h
+        elif k in ("items", "popitem", "clear"):
+            aux = list(h)
+        if k == "pop":
+            return h.pop(op[1]), aux
+        if k == "popd":
+            return h.pop(op[1], op[2]), aux
+        if k == "getd":
+            return h.get(op[1], op[2]), aux
+        if k == "setdefault":
+            return h.setdefault(op[1], op[2]), aux
+        if k == "items":
+            return [list(p) for p in h.items()], aux
+        if k == "update":
+            h.update([tuple(p) for p in op[1]]); return "U", aux
+        if k == "popitem":
+            return list(h.popitem()), aux
+        if k == "clear":
+            h.clear(); return "U", aux
+        raise AssertionError(k)
+    except Exception as e:
+        return _exc(e), aux
+
+
+def _expand(case, impl):
+    """-> (primitive ops, plan); plan[i] = (first primitive index, count) of case op i"""
+    prims, plan = [], []
+    for op, aux in zip(case["ops"], impl["aux"]):
+        k = op[0]
+        if k in ("pop", "popd"):
+            e = [["get", op[1]], ["del", op[1]]]
+        elif k == "getd":
+            e = [["get", op[1]]]
+        elif k == "setdefault":
+            e = [["contains", op[1]], ["get", op[1]]] + ([] if aux else [["set", op[1], op[2]]])
+        elif k == "items":
+            e = [["keys"]] + [["get", x] for x in aux]
+        elif k == "update":
+            e = [["set", n, v] for n, v in op[1]]
+        elif k == "popitem":
+            e = [["keys"]] + ([["get", aux[0]], ["del", aux[0]]] if aux else [])
+        elif k == "clear":
+            e = [["keys"]] + [["del", x] for x in aux]     # popitem's `self[key]` only fills a cache entry that `del` drops
+        else:
+            e = [op]
+        plan.append((len(prims), len(e)))
+        prims += e
+    return prims, plan
+
+
+def _unfold(case, impl):
+    """what the primitive ops of the expansion must have returned, given what the mixin call returned (and what
+    `in` / iteration reported just before it); "IMPL-INCONSISTENT" where no primitive outputs explain the result"""
+    outs = []
+    for op, aux, out in zip(case["ops"], impl["aux"], impl["outs"]):
+        k = op[0]
+        bad = []
+        if k == "pop":
+            e = [out, "U"] if aux else ["KeyError", "KeyError"]
+            bad = [] if aux or out == "KeyError" else ["IMPL-INCONSISTENT"]
+        elif k == "popd":
+            e = [out, "U"] if aux else ["KeyError", "KeyError"]
+            bad = [] if aux or out == op[2] else ["IMPL-INCONSISTENT"]
+        elif k == "getd":
+            e = [out] if aux else ["KeyError"]
+            bad = [] if aux or out == op[2] else ["IMPL-INCONSISTENT"]
+        elif k == "setdefault":
+            e = [True, out] if aux else [False, "KeyError", "U"]
+            bad = [] if aux or out == op[2] else ["IMPL-INCONSISTENT"]
+        elif k == "items":
+            ok = isinstance(out, list) and [p[0] for p in out] == aux
+            e = [aux] + ([p[1] for p in out] if ok else ["IMPL-INCONSISTENT"])
+        elif k == "update":
+            e = ["U"] * len(op[1])
+            bad = [] if out == "U" else ["IMPL-INCONSISTENT"]
+        elif k == "popitem":
+            if aux:
+                ok = isinstance(out, list) and out[0] == aux[0]
+                e = [aux, out[1] if ok else "IMPL-INCONSISTENT", "U"]
+            else:
+                e = [aux]
+                bad = [] if out == "KeyError" else ["IMPL-INCONSISTENT"]
+        elif k == "clear":
+            e = [aux] + ["U"] * len(aux)
+            bad = [] if out == "U" else ["IMPL-INCONSISTENT"]
+        else:
+            e = [out]
+        outs += e + bad
+    return outs
+
+
+def _rand_mixin_ops(rng, n, names):
+    ops = []
+    for _ in range(n):
+        if rng.random() < 0.55:
+            ops += _rand_ops(rng, 1, names)
+            continue
+        k = rng.choice(MIXINS + ("pop", "setdefault", "items"))
+        name = rng.choice(names)
+        if k == "pop":
+            ops.append(["pop", name])
+        elif k in ("popd", "getd", "setdefault"):
+            ops.append([k, name, rng.choice(VALUES)])
+        elif k == "update":
+            ops.append(["update", [[rng.choice(names), rng.choice(VALUES)] for _ in range(rng.randint(0, 3))]])
+        else:
+            ops.append([k])
+    return ops
+
+
+def _enum_mixin_cases(names, maxlen):
+    muts = [["add", n, "1"] for n in names] + [["get", n] for n in names] + [["pop", n] for n in names] \
+        + [["setdefault", n, "2"] for n in names] + [["popd", names[0], "d"], ["items"], ["popitem"], ["clear"],
+           ["update", [[names[0], "3"], [names[-1], "4"]]], ["parseLine", " c"]]
+    tail = [["items"], ["getAll"], ["getd", names[-1], "d"], ["pop", names[0]], ["len"], ["popitem"], ["keys"]]
+    for L in range(1, maxlen + 1):
+        for seq in itertools.product(muts, repeat=L):
+            yield {"kind": "mixin", "ops": [list(o) for o in seq] + tail, "enum": True}
+
+
+def _via_pickle(h):
+    import pickle
+    return pickle.loads(pickle.dumps(h))
+
+
+def _via_deepcopy(h):
+    import copy
+    return copy.deepcopy(h)
+
+
+def _via_copycopy(h):
+    import copy
+    return copy.copy(h)
+
+
+def _via_ctor(h):
+    from tornado.httputil import HTTPHeaders
+    return HTTPHeaders(h)
+
+
+# every way of copying a header map; "deep" ones (deepcopy / pickle round trip) duplicate the whole object
+# state (cache, _last_key), the others go through the copy constructor (re-`add` every pair)
+_COPY_VIA = {"copy": lambda h: h.copy(), "copy.copy": _via_copycopy, "ctor": _via_ctor,
+             "deepcopy": _via_deepcopy, "pickle": _via_pickle}
+_DEEP = ("deepcopy", "pickle")
+
+
+def _copy_arg(case):
+    enc_ops = lambda ops: [[atom(o[0])] + o[1:] for o in ops]
+    return [enc_ops(case["ops"]), enc_ops(case["after"]), enc_ops(case.get("after2", [])),
+            atom("deep" if case.get("via", "copy") in _DEEP else "ctor"), atom(case["mutate"])]
+
+
 def run_impl(case):
     from tornado.httputil import HTTPHeaders
     if case["kind"] == "ops":
         h = HTTPHeaders()
         outs = [_apply(h, op) for op in case["ops"]]
-        extra = {}
+        extra = {"present": _present_probes(case["ops"])}
         pairs = [list(p) for p in h.get_all()]
         if all(TOKEN.match(k) and FIELD_VALUE.match(v) for k, v in pairs):
             try:
-                extra["roundtrip"] = [list(p) for p in HTTPHeaders.parse(str(h)).get_all()] == pairs
+                h2 = HTTPHeaders.parse(str(h))
+                # "an equal map": the same (name, value) pairs in the same order, and equal as mappings (==, both ways)
+                extra["roundtrip"] = [list(p) for p in h2.get_all()] == pairs and bool(h2 == h) and bool(h == h2) \
+                    and list(h2) == list(h)
             except Exception as e:
                 extra["roundtrip"] = _exc(e)
         return {"outs": outs, **extra}
+    if case["kind"] == "mixin":
+        h = HTTPHeaders()
+        outs, auxs = [], []
+        for op in case["ops"]:
+            if op[0] in MIXINS:
+                o, a = _apply_mixin(h, op)
+            else:
+                o, a = _apply(h, op), None
+            outs.append(o); auxs.append(a)
+        return {"outs": outs, "aux": auxs}
     if case["kind"] == "parse":
         try:
-            h = HTTPHeaders.parse(case["text"])
+            h = HTTPHeaders.parse(case["text"]) if case.get("bytes", True) else \
+                HTTPHeaders.parse(case["text"], _chars_are_bytes=False)
             return {"pairs": [list(p) for p in h.get_all()], "keys": list(h)}
         except Exception as e:
             return {"pairs": _exc(e)}
@@ -301,25 +632,29 @@ def run_impl(case):
         for op in case["ops"]:
             _apply(h, op)
         try:
-            c = h.copy()
+            c = _COPY_VIA[case.get("via", "copy")](h)
         except Exception as e:
             return {"copy": _exc(e)}
-        snap = lambda x: [[list(p) for p in x.get_all()], str(x), list(x), [x.get(k) for k in list(x)]]
+        snap = lambda x: [[list(p) for p in x.get_all()], str(x), list(x), [x.get_list(k) for k in list(x)], len(x)]
         before_copy = [list(p) for p in c.get_all()]
         target, other = (c, h) if case["mutate"] == "copy" else (h, c)
-        other_before = snap(other)
-        for op in case["after"]:
-            _apply(target, op)
-        return {"copy": before_copy, "independent": snap(other) == other_before}
+        other_before = snap(other)          # read-only snapshot (no h[k]: that would fill the other's cache)
+        outs = [_apply(target, op) for op in case["after"]]
+        independent = snap(other) == other_before
+        # ... and the OTHER object goes on with a history of its own: its outputs must not have seen `after`
+        outs2 = [_apply(other, op) for op in case.get("after2", [])]
+        return {"copy": before_copy, "independent": independent, "outs": outs, "outs2": outs2}
     raise AssertionError(case)
 
 
 def model_requests(case, impl):
     if case["kind"] == "ops":
         return [line(ID, "run", [[atom(o[0])] + o[1:] for o in case["ops"]])]
+    if case["kind"] == "mixin":
+        return [line(ID, "run", [[atom(o[0])] + o[1:] for o in _expand(case, impl)[0]])]
     if case["kind"] == "parse":
-        return [line(ID, "parse", case["text"])]
-    return [line(ID, "copy", [[atom(o[0])] + o[1:] for o in case["ops"]])]
+        return [line(ID, "parse" if case.get("bytes", True) else "parseU", case["text"])]
+    return [line(ID, "copyrun", _copy_arg(case))]
 
 
 def _norm(v):
@@ -339,18 +674,62 @@ def _py(reply):
 def model_result(case, replies):
     if case["kind"] == "ops":
         return _py(replies[0])
+    if case["kind"] == "mixin":
+        return _py(replies[0])          # outputs of the primitive ops of the expansion (impl side: _unfold)
     if case["kind"] == "parse":
         return _py(replies[0])
-    return _py(replies[0])
+    st, vals = parse_reply(replies[0])
+    assert st == "ok", replies[0]
+    return [_norm(v) for v in vals]     # [error] or [pairs of the copy, outputs of `after`, outputs of `after2`]
 
 
 def impl_view(case, impl):
     """the part of the implementation's result the model predicts"""
     if case["kind"] == "ops":
         return impl["outs"]
+    if case["kind"] == "mixin":
+        return _unfold(case, impl)
     if case["kind"] == "parse":
         return impl["pairs"]
-    return impl["copy"]
+    if isinstance(impl["copy"], str):
+        return [impl["copy"]]
+    return [impl["copy"], impl["outs"], impl["outs2"]]
+
+
+_FORBIDDEN = re.compile(r"[\x00-\x08\x0a-\x1f\x7f]")
+
+
+def _ref_parse(text, as_bytes):
+    """Reference reader for a whole header block, written from RFC 9112 §5 / the docstrings, not from the code:
+    LF-terminated lines (an optional CR before the LF belongs to the terminator; an unterminated last line is taken
+    as is), empty lines ignored, `name ":" OWS value OWS` field lines, obs-fold lines (leading SP/HTAB) extend the
+    value of the previous field line by one SP + the stripped text.  Names are tokens, compared case-insensitively;
+    values are field-values (as_bytes) or any text without control characters (multipart part headers).
+    -> [[lower-cased name, [values]], …] in order of first appearance, or "HTTPInputError"."""
+    pieces = text.split("\n")
+    lines = [p[:-1] if p.endswith("\r") else p for p in pieces[:-1]] + [pieces[-1]]
+    ok_value = (lambda v: FIELD_VALUE.match(v) is not None) if as_bytes else (lambda v: not _FORBIDDEN.search(v))
+    fields = []        # (lower name, value) per field line, obs-folds merged
+    for ln in lines:
+        if ln == "":
+            continue
+        if ln[0] in " \t":
+            if not fields:
+                return "HTTPInputError"
+            part = ln.strip(" \t")
+            if not ok_value(part):
+                return "HTTPInputError"
+            fields[-1][1] += " " + part
+            continue
+        name, colon, value = ln.partition(":")
+        value = value.strip(" \t")
+        if not colon or not TOKEN.match(name) or not ok_value(value):
+            return "HTTPInputError"
+        fields.append([name.lower(), value])
+    out = {}
+    for k, v in fields:
+        out.setdefault(k, []).append(v)
+    return [[k, vs] for k, vs in out.items()]
 
 
 def _lines_keep_lf(text):
@@ -362,11 +741,15 @@ def _lines_keep_lf(text):
 def spec_requests(case, impl):
     if case["kind"] == "ops":
         return [line(ID, "spec", [[atom(o[0])] + o[1:] for o in case["ops"]])]
+    if case["kind"] == "mixin":
+        return [line(ID, "spec", [[atom(o[0])] + o[1:] for o in _expand(case, impl)[0]])]
     if case["kind"] == "parse":
+        if not case.get("bytes", True):
+            return []       # the Lean multimap validates values as bytes; this mode is judged by _ref_parse only
         # parse(text) = the multimap after parse_line on every line (first error wins)
         return [line(ID, "spec", [[atom("parseLine"), l] for l in _lines_keep_lf(case["text"])]
                      + [[atom("getAll")], [atom("keys")]])]
-    return []
+    return [line(ID, "speccopyrun", _copy_arg(case))]
 
 
 def _ci(op, out):
@@ -396,9 +779,24 @@ def spec_violation(case, impl, replies):
         for i, (op, w, g) in enumerate(zip(case["ops"], want, got)):
             if _ci(op[0], w) != _ci(op[0], g):
                 return "op %d %r: multimap says %r, HTTPHeaders gave %r" % (i, op, w, g)
-        # present => deletable is part of the spec outputs (Spec.del succeeds iff contains)
+        # present => deletable, directly on the implementation (every read API, every probed point of the history);
+        # it is ALSO part of the multimap outputs above (Spec.del succeeds iff Spec.contains)
+        for cut, name, rep, spelling, d, after in impl.get("present") or []:
+            if d != "U":
+                return "present-deletable: after %d ops %r is reported present by %s but del h[%r] gave %s" % (cut, name, "/".join(rep), spelling, d)
+            return "present-deletable: after %d ops and del h[%r], %r is still reported present by %s" % (cut, spelling, name, "/".join(after))
         if impl.get("roundtrip") not in (None, True):
             return "parse(str(h)) != h: %r" % (impl["roundtrip"],)
+        return None
+    if case["kind"] == "mixin":
+        prims, plan = _expand(case, impl)
+        want, got = _py(replies[0]), _unfold(case, impl)
+        for (op, (i, n)) in zip(case["ops"], plan):
+            for p, w, g in zip(prims[i:i + n], want[i:i + n], got[i:i + n]):
+                if _ci(p[0], w) != _ci(p[0], g):
+                    return "mixin %r (as %r): multimap says %r, HTTPHeaders implies %r" % (op[:2], p, w, g)
+        if "IMPL-INCONSISTENT" in got:
+            return "mixin result not explained by the primitive operations: %r" % (got,)
         return None
     if case["kind"] == "copy":
         if isinstance(impl["copy"], str):
@@ -406,10 +804,41 @@ def spec_violation(case, impl, replies):
             return None if impl["copy"] == "HTTPInputError" else "copy raised %s" % impl["copy"]
         if not impl["independent"]:
             return "mutating the %s changed the other map" % case["mutate"]
+        # both objects are multimaps in their own right: the copy = a fresh multimap with the same pairs
+        # (Spec.copy), the original = the multimap it was; each continues with its OWN history
+        st, vals = parse_reply(replies[0])
+        want = [_norm(v) for v in vals]
+        if _ci("getAll", want[0]) != _ci("getAll", impl["copy"]):
+            return "the copy holds %r, the multimap %r" % (impl["copy"], want[0])
+        who = (case["mutate"], "orig" if case["mutate"] == "copy" else "copy")
+        for ops, w_outs, g_outs, obj in ((case["after"], want[1], impl["outs"], who[0]),
+                                         (case.get("after2", []), want[2], impl["outs2"], who[1])):
+            for i, (op, w, g) in enumerate(zip(ops, w_outs, g_outs)):
+                if obj == "copy" and op[0] == "parseLine" and op[1][:1] in (" ", "\t"):
+                    # which field line a continuation line extends right after a copy (the last pair? the
+                    # original's last added one?) is not fixed by the property: not judged from here on
+                    # (the model correspondence still pins the actual behaviour)
+                    break
+                if _ci(op[0], w) != _ci(op[0], g):
+                    return "on the %s, op %d %r: multimap says %r, HTTPHeaders gave %r" % (obj, i, op, w, g)
         return None
     if case["kind"] == "parse":
         if isinstance(impl["pairs"], str) and impl["pairs"].startswith("Uncaught"):
             return "HTTPHeaders.parse raised %s" % impl["pairs"]
+        # (1) an independent batch reader of the header block (shares nothing with the Lean model/Spec)
+        ref = _ref_parse(case["text"], case.get("bytes", True))
+        if isinstance(ref, str) or isinstance(impl["pairs"], str):
+            if ref != impl["pairs"]:
+                return "reference reader: want %r, HTTPHeaders.parse gave %r" % (ref, impl["pairs"])
+        else:
+            got = {}
+            for k, v in impl["pairs"]:
+                got.setdefault(k.lower(), []).append(v)
+            if [[k, vs] for k, vs in got.items()] != ref or [k.lower() for k in impl.get("keys", [])] != [k for k, _ in ref]:
+                return "reference reader: want %r, HTTPHeaders.parse gave %r" % (ref, impl["pairs"])
+        if not case.get("bytes", True):
+            return None
+        # (2) the Lean multimap, line by line
         outs = _py(replies[0])
         errs = [o for o in outs[:-2] if o != "U"]
         want = errs[0] if errs else outs[-2]
@@ -428,6 +857,8 @@ def nontrivial(case, impl):
             if o[0] == "add":
                 seen[o[1].lower()] = seen.get(o[1].lower(), 0) + 1
         return any(v >= 2 for v in seen.values()) and any(o[0] in ("get", "del") for o in case["ops"])
+    if case["kind"] == "mixin":
+        return any(o[0] in MIXINS for o in case["ops"])
     if case["kind"] == "parse":
         return isinstance(impl["pairs"], list) and len(impl["pairs"]) >= 1
     return len(case["ops"]) > 0
@@ -435,6 +866,14 @@ def nontrivial(case, impl):
 
 def stats(case, impl):
     out = ["kind:" + case["kind"] + ("-sweep" if case.get("sweep") else "")]
+    if case["kind"] == "mixin":
+        out += ["mixin:" + o[0] for o in case["ops"] if o[0] in MIXINS]
+    if case["kind"] == "parse":
+        out += ["parse-mode:" + ("bytes" if case.get("bytes", True) else "chars"),
+                "parse:" + (impl["pairs"] if isinstance(impl["pairs"], str) else "ok")]
+    if case["kind"] == "copy":
+        out += ["copy-via:" + case.get("via", "copy"), "copy-mutate:" + case["mutate"],
+                "copy:" + ("raised" if isinstance(impl["copy"], str) else "ok")]
     if case["kind"] == "ops":
         if any(len(o) > 1 and o[0] != "parseLine" and _LETTER_AFTER_NONLETTER.search(o[1]) for o in case["ops"]):
             out.append("names:letter-after-digit-or-punct")
@@ -448,13 +887,21 @@ def stats(case, impl):
 
 def signature(case, impl, why):
     if case["kind"] == "ops":
+        if why.startswith("present-deletable"):
+            return "ops/present-deletable/" + ("not-deletable" if " gave " in why else "still-present")
         m = re.match(r"op \d+ \['(\w+)'", why)
         return "ops/%s/%s" % (m.group(1) if m else "roundtrip", "uncaught" if "Uncaught" in why else "wrong-output")
+    m = re.match(r"mixin \['(\w+)'", why)
+    if m:
+        return "mixin/%s/%s" % (m.group(1), "uncaught" if "Uncaught" in why else "wrong-output")
+    m = re.match(r"on the (\w+), op \d+ \['(\w+)'", why)
+    if m:
+        return "copy/%s/%s/%s" % (m.group(1), m.group(2), "uncaught" if "Uncaught" in why else "wrong-output")
     return case["kind"] + "/" + re.sub(r"[^a-zA-Z]+", "-", why)[:40]
 
 
 def shrink(case):
-    if case["kind"] in ("ops", "copy"):
+    if case["kind"] in ("ops", "copy", "mixin"):
         ops = case["ops"]
         size = len(ops) // 2
         while size > 1:     # drop whole chunks first (chained probes), then single ops
@@ -464,9 +911,10 @@ def shrink(case):
         for i in range(len(ops)):
             yield {**case, "ops": ops[:i] + ops[i + 1:]}
     if case["kind"] == "copy":
-        a = case["after"]
-        for i in range(len(a)):
-            yield {**case, "after": a[:i] + a[i + 1:]}
+        for fld in ("after", "after2"):
+            a = case.get(fld, [])
+            for i in range(len(a)):
+                yield {**case, fld: a[:i] + a[i + 1:]}
     if case["kind"] == "parse":
         t = case["text"]
         for i in range(len(t)):
